@@ -1,10 +1,13 @@
 CONSTANTS
  MaxQ = 3
- Acls = {"allow","deny","both","open"}
+ Acls = {"allow","deny","both","open","stardeny"}
  CacheModes = {TRUE, FALSE}
  MaxEntries = 2
  FixFullText = TRUE
  DevCacheKeyTruncated = TRUE
+ DevKeyCut = "none"
+ DevStarSkipsDeny = FALSE
+ OnlyWide = FALSE
 INIT Init
 NEXT Next
 INVARIANTS C37_ForwardedAuthorized
